@@ -215,6 +215,10 @@ def m_int_bv(ex, st, ty, fn, A):
         return [([z3.Not(big)], some(r)), ([big], none())]
     if fn == 'is_negative':
         return BoolV(x < 0)
+    if fn in ('wrapping_shl', 'wrapping_shr'):
+        return ex.binop_bv('Shl' if fn == 'wrapping_shl' else 'Shr', A[0], A[1], ty)      # shift amount is masked to the width
+    if fn in ('checked_neg', 'wrapping_neg', 'saturating_sub', 'saturating_add', 'leading_zeros', 'trailing_zeros', 'count_ones', 'pow', 'checked_pow'):
+        raise NotEncoded(f'{ty}::{fn} in BV mode')
     return None
 
 
@@ -234,11 +238,35 @@ def m_int_cmp(ex, st, callee, A):
     if fn in ('max', 'min') and isinstance(a, IntV):
         c = ex.binop('Ge' if fn == 'max' else 'Le', a, b).t
         return IntV(z3.If(c, a.t, b.t), a.ty)
-    if fn == 'cmp' and isinstance(a, IntV):
+    if fn in ('cmp', 'partial_cmp') and isinstance(a, IntV):
         lt, eq = ex.binop('Lt', a, b).t, ex.binop('Eq', a, b).t
-        return [([lt], Agg('variant', 'std::cmp::Ordering', 'Less', [])), ([eq], Agg('variant', 'std::cmp::Ordering', 'Equal', [])),
-                ([z3.Not(lt), z3.Not(eq)], Agg('variant', 'std::cmp::Ordering', 'Greater', []))]
+        w = (lambda v: some(v)) if fn == 'partial_cmp' else (lambda v: v)
+        return [([lt], w(Agg('variant', 'std::cmp::Ordering', 'Less', []))), ([eq], w(Agg('variant', 'std::cmp::Ordering', 'Equal', []))),
+                ([z3.Not(lt), z3.Not(eq)], w(Agg('variant', 'std::cmp::Ordering', 'Greater', [])))]
     return None
+
+
+def m_partial_ord(ex, st, callee, A):
+    """std's provided methods of PartialOrd / the impls for references, for crate types whose partial_cmp / cmp is in the dump"""
+    m = re.match(r'^<(&*)(.*) as (?:std::cmp::)?PartialOrd(?:<.*>)?>::(lt|le|gt|ge)$', callee)
+    if not m or m.group(2) in INT_TY or m.group(2) in ('bool', 'char'):
+        return None
+    ty, fn = m.group(2), m.group(3)
+    a, b = A[0], A[1]
+    for _ in range(len(m.group(1))):
+        a, b = ex.read(st, a.fid, a.place), ex.read(st, b.fid, b.place)
+    r = ex.resolve(f'<{ty} as PartialOrd>::partial_cmp', [a, b])
+    if r is None:
+        return None
+    want = {'lt': ('Less',), 'le': ('Less', 'Equal'), 'gt': ('Greater',), 'ge': ('Greater', 'Equal')}[fn]
+
+    def then(st2, v):
+        if isinstance(v, Agg) and v.variant == 'Some' and isinstance(v.fields[0], Agg) and v.fields[0].variant in ('Less', 'Equal', 'Greater'):
+            return BoolV(z3.BoolVal(v.fields[0].variant in want))
+        if isinstance(v, Agg) and v.variant == 'None':
+            return BoolV(z3.BoolVal(False))
+        raise NotEncoded(f'partial_cmp result {v!r}')
+    return Enter(r[0], [a, b], then, r[1])
 
 
 def m_int_conv(ex, st, callee, A):
@@ -514,6 +542,33 @@ def m_misc(ex, st, callee, A):
                 tf, tp = ex.deref_target(st, v)
                 return Ref(tf, tp)
         raise NotEncoded(f'Deref of {r!r}')
+    if re.search(r' as (?:std::ops::)?Fn(?:Mut|Once)?<\(.*\)>>::call(?:_mut|_once)?$', callee):
+        tup = A[1]
+        if isinstance(tup, Agg) and tup.kind == 'tuple':
+            return ex.call_closure(st, A[0], list(tup.fields))
+    # ---- std::net (documented ranges: 127.0.0.0/8, ::1, 224.0.0.0/4, ff00::/8); addresses are their integer value
+    m = re.match(r'^<(u32|u128) as From<(?:std::net::)?(Ipv4Addr|Ipv6Addr)>>::from$', callee)
+    if m:
+        v = scalar(ex, st, A[0])
+        if isinstance(v, Agg) and v.kind == 'struct' and len(v.fields) == 1 and isinstance(v.fields[0], IntV):
+            return v.fields[0]
+        raise NotEncoded(f'{callee} on {v!r}')
+    m = re.match(r'^(?:std::net::)?IpAddr::(is_loopback|is_multicast|is_ipv4|is_ipv6)$', callee)
+    if m:
+        v = scalar(ex, st, A[0])
+        if isinstance(v, Agg) and v.variant in ('V4', 'V6') and isinstance(v.fields[0], Agg) and isinstance(v.fields[0].fields[0], IntV):
+            a = v.fields[0].fields[0].t
+            four = v.variant == 'V4'
+            fn = m.group(1)
+            if fn == 'is_ipv4':
+                return BoolV(z3.BoolVal(four))
+            if fn == 'is_ipv6':
+                return BoolV(z3.BoolVal(not four))
+            if z3.is_bv(a):
+                if fn == 'is_loopback':
+                    return BoolV(z3.LShR(a, 24) == 127 if four else a == 1)
+                return BoolV(z3.LShR(a, 28) == 14 if four else z3.LShR(a, 120) == 0xff)
+        raise NotEncoded(f'{callee} on {v!r}')
     if re.match(r'^bool::then_some::<', callee):
         c = scalar(ex, st, A[0])
         return [([c.t], some(A[1])), ([z3.Not(c.t)], none())]
@@ -547,6 +602,7 @@ def install(ex):
     for rx, fn in [
         (r'<impl [iu](8|16|32|64|128|size)>::\w+$', m_int),
         (r'(PartialOrd|PartialEq|Ord)(<[^>]*>)?( for \w+)?>::\w+$', m_int_cmp),
+        (r'PartialOrd(<[^>]*>)?>::(lt|le|gt|ge)$', m_partial_ord),
         (r'(From|Into|TryFrom|TryInto)<\w+>>::(from|into|try_from|try_into)$', m_int_conv),
         (r'(Try>::branch|Try>::from_output|::from_residual)$', m_try),
         (r'Option::<', m_option),
